@@ -39,10 +39,10 @@ Proof. exact text_case_insensitive. Qed.
 Print Assumptions C15_text_case_insensitive.
 
 (* C15_select.  Whenever handle_ifs returns positions (any number of criteria
-   pairs, any range sizes, any criteria of the modelled class), they are,
-   without repetition, exactly the positions i such that for every pair the
-   cell i of the pair's range satisfies (Sat) the pair's parsed criterion.
-   (That handle_ifs does return is NOT a theorem: Refuted/C15_total.v.) *)
+   pairs, any range sizes, cells of any type, any criteria of the modelled
+   class), they are, without repetition, exactly the positions i such that for
+   every pair the cell i of the pair's range satisfies (Sat) the pair's parsed
+   criterion.  That it does return: C15_total below. *)
 Theorem C15_select : forall args op coords, handle_ifs args op = Ok (inr coords) ->
   exists prs, shape_stage args op = Ok (inr prs) /\ prs <> []
     /\ NoDup coords
@@ -130,3 +130,44 @@ Theorem C15_avg : forall ar args sr coords cells,
   averageifs ar args = (s <- sumifs ar args ;; c <- countifs args ;; py_truediv s c).
 Proof. exact average_is_sum_over_count. Qed.
 Print Assumptions C15_avg.
+
+(* C15_total.  Over ranges of scalar cells (number, text, logical, blank: any
+   mix) and number/logical/text criteria, handle_ifs returns positions or the
+   #VALUE! of a shape mismatch; it raises only AssertionError (arguments not
+   in pairs) or IndexError (an empty range), or the input is outside the model
+   (Unmodelled: regex metacharacters in a wildcard, line feeds, non-ASCII / inf /
+   nan spellings in a numeric test).  No cell and no criterion makes it fail. *)
+Theorem C15_total : forall args op,
+  (forall prs, shape_stage args op = Ok (inr prs) ->
+     forall rows crit, In (rows, crit) prs -> crit_scalar crit /\ scalar_rows rows) ->
+  raises_only shape_exn (handle_ifs args op).
+Proof. exact handle_ifs_never_fails. Qed.
+Print Assumptions C15_total.
+
+(* once the shape checks have passed: positions, never an exception *)
+Theorem C15_total_positions : forall args op prs, shape_stage args op = Ok (inr prs) ->
+  (forall rows crit, In (rows, crit) prs -> crit_scalar crit /\ scalar_rows rows) ->
+  (exists coords, handle_ifs args op = Ok (inr coords)) \/ handle_ifs args op = Raise Unmodelled.
+Proof. exact handle_ifs_total. Qed.
+Print Assumptions C15_total_positions.
+
+Theorem C15_total_countifs : forall args prs, shape_stage args None = Ok (inr prs) ->
+  (forall rows crit, In (rows, crit) prs -> crit_scalar crit /\ scalar_rows rows) ->
+  (exists n, countifs args = Ok (VInt n)) \/ countifs args = Raise Unmodelled.
+Proof. exact countifs_total. Qed.
+Print Assumptions C15_total_countifs.
+
+(* the two ingredients: every number/logical/text criterion parses, and the
+   parsed check never raises on a scalar cell (a wildcard over a number, a
+   logical or a blank is simply false) *)
+Theorem C15_total_parse : forall crit, crit_scalar crit ->
+  (exists c, parse_criteria crit = Ok c /\ crit_ok c) \/ parse_criteria crit = Raise Unmodelled.
+Proof. exact parse_total. Qed.
+Print Assumptions C15_total_parse.
+Theorem C15_total_sat : forall c x, crit_ok c -> is_scalar x = true ->
+  (exists b, sat c x = Ok b) \/ sat c x = Raise Unmodelled.
+Proof. exact sat_total. Qed.
+Print Assumptions C15_total_sat.
+Theorem C15_wildcard_nontext : forall p x, (forall s, x <> VStr s) -> sat (CWild p) x = Ok false.
+Proof. exact wild_nontext. Qed.
+Print Assumptions C15_wildcard_nontext.
